@@ -2,7 +2,7 @@
 """Regenerates /verif/MANIFEST.json from the table below (kept in one place so it stays valid)."""
 import json, subprocess
 
-BUILT = "C01 C02 C03 C04 C05 C06 C07 C08 C09 C10 C11 C13 C15 C16 C17 C18".split()
+BUILT = [f"C{i:02d}" for i in range(1, 20)]
 
 CHECKS = {
  "C01": ("E2", "exhaustive enumeration of expression DAGs x tracking masks x roots x seeds on the real library, forward-mode reference oracle", "4.C01"),
